@@ -307,8 +307,8 @@ def _short(args, kwargs):
 # ----------------------------------------------------------------------------- exploration sweep (subprocess)
 
 _SWEEP_CFG = {
-    "quick": {"samples_per_op": 8, "budget_s": 100, "dtypes": ["float32", "int64"]},
-    "thorough": {"samples_per_op": 12, "budget_s": 900,
+    "quick": {"samples_per_op": 6, "per_kind": 3, "budget_s": 130, "dtypes": ["float32", "int64"]},
+    "thorough": {"samples_per_op": 12, "per_kind": 6, "budget_s": 1200,
                  "dtypes": ["float32", "int64", "int32", "bool", "uint8", "int16", "float64", "float16"]},
 }
 _BASELINE = os.path.join(common.VERIF, "corpus", "C08", "sweep_baseline.json")
